@@ -1110,7 +1110,7 @@ class TaintEngine:
             if not sk:
                 continue
             b = self.bind(g, call, f, state)
-            for p_, whats in sk.items():
+            for p_, whats in list(sk.items()):     # (g may be f itself)
                 lab = self.inst(frozenset([p_]), b)
                 if not lab:
                     continue
